@@ -12,6 +12,7 @@ func init() {
 type vStored struct {
 	segs []string
 	vals []interface{}
+	wild bool // the old path has a wildcard: the order of its values is not specified
 }
 
 // vNondetNewPath: a dot path of 1-2 one-byte segments, optionally with a trailing dot.
@@ -72,7 +73,7 @@ func vC12(spec vSpec, maxPairs int, allowOverlap bool, wildOK bool, idxMax int) 
 		pairs = append(pairs, pair)
 		V := refDenote(steps, m)
 		if len(V) > 0 {
-			stored = append(stored, vStored{segs, V})
+			stored = append(stored, vStored{segs, V, hasWild})
 		}
 	}
 	overlap := false
@@ -118,7 +119,11 @@ func vC12(spec vSpec, maxPairs int, allowOverlap bool, wildOK bool, idxMax int) 
 			vAssert(vSame(cur, st.vals[0]), "newmap: a single value is stored as itself")
 		} else {
 			l, isList := cur.([]interface{})
-			vAssert(isList && vSameList(l, st.vals), "newmap: several values are stored as a list in order")
+			if st.wild {
+				vAssert(isList && vSameMultiset(l, st.vals), "newmap: several values are stored as a list")
+			} else {
+				vAssert(isList && vSameList(l, st.vals), "newmap: several values are stored as a list in order")
+			}
 		}
 		entries++
 		vCover("stored")
